@@ -84,6 +84,7 @@ def carried(kind, spec, impl_frame):
 
 class C11(PropBase):
     id = "C11"
+    shown_columns = ('ALT B', 'SQWK', 'CALLSIGN', 'GSP', 'TRK', 'VRATE', 'W')
     lean_modules = ["SqModel.Props.C11", "SqModel.Proofs.Dispatch", "SqModel.Proofs.Bridge", "SqModel.Proofs.BridgeRat", "SqModel.Proofs.BridgePlane", "SqModel.Proofs.BridgeTable"]
     extractors = ["dispatch", "trans"]
     rule = ("sequences over an alphabet of 37 well-formed frame kinds (incl. DF18 frames with CF 2 / 6) (every supported format, both edges of every type-code class, capability 4 and 7, a BDS 2,0 reply) x 2 aircraft (every supported format; altitude codes with Q=1), "
